@@ -202,6 +202,9 @@ var CommandFeatures = []Feature{
 		emptyOK("empty", `{env: {}}`, "env"),
 		alt("scalars", `{env: {N: 1, T: true, F: 1.5, S: "007"}}`, `{env: {N: "1", T: "true", F: "1.5", S: "007"}}`, "env"),
 		alt("dollar", `{env: {P: "$HOME/x", Q: "a b"}}`, `{env: {P: "$HOME/x", Q: "a b"}}`, "env"),
+		// floats whose shortest spelling uses an exponent: which decimal notation the string gets is not specified, the number is
+		{Name: "floats", In: Map("env", Map("BIG", Flt(2500000), "HUGE", Flt(6.02e23), "SMALL", Flt(0.00001), "NEG", Flt(-1.5e-7), "MAXI", Int(9223372036854775807))),
+			Out: Map("env", UMap("BIG", NumStr(2500000), "HUGE", NumStr(6.02e23), "SMALL", NumStr(0.00001), "NEG", NumStr(-1.5e-7), "MAXI", Str("9223372036854775807")))},
 	}},
 	{"cmd.matrix", []Alt{
 		alt("none", `{}`, `{}`),
@@ -247,7 +250,10 @@ var CommandFeatures = []Feature{
 			"bin", IntRaw("0b11", 3), "neg", IntRaw("-0x10", -16), "exp", FltRaw("1e3", 1000), "dot", FltRaw(".5", 0.5), "in", Seq(IntRaw("007", 7), Map("k", IntRaw("0777", 511))),
 			"max", Int(9223372036854775807), "min", Int(-9223372036854775808), "u63", BigUint("9223372036854775808"), "u64", Seq(BigUint("18446744073709551615"))),
 			Out: Map("oct", Int(8), "perm", Int(420), "oct2", Int(15), "hex", Int(31), "us", Int(1000), "plus", Int(5), "bin", Int(3), "neg", Int(-16), "exp", Flt(1000), "dot", Flt(0.5), "in", Seq(Int(7), Map("k", Int(511))),
-			"max", Int(9223372036854775807), "min", Int(-9223372036854775808), "u63", BigUint("9223372036854775808"), "u64", Seq(BigUint("18446744073709551615")))},
+				"max", Int(9223372036854775807), "min", Int(-9223372036854775808), "u63", BigUint("9223372036854775808"), "u64", Seq(BigUint("18446744073709551615")))},
+		{Name: "bool-null-spellings", In: Map("t1", BoolRaw("True", true), "t2", BoolRaw("TRUE", true), "f1", BoolRaw("False", false), "f2", BoolRaw("FALSE", false), "n1", NullRaw("Null"), "n2", NullRaw("NULL"), "n3", NullRaw("~"),
+			"in", Seq(BoolRaw("True", true), NullRaw("~"), Map("k", BoolRaw("FALSE", false))), "yes", Str("yes"), "off", Str("off")),
+			Out: Map("t1", Bool(true), "t2", Bool(true), "f1", Bool(false), "f2", Bool(false), "n1", Null(), "n2", Null(), "n3", Null(), "in", Seq(Bool(true), Null(), Map("k", Bool(false))), "yes", Str("yes"), "off", Str("off"))},
 		// keys that would name another kind of step are ordinary extra keys of a command step, wherever they are written
 		alt("kind-keys", `{wait: null, block: b2, trigger: t2, group: null, steps: []}`, `{wait: null, block: b2, trigger: t2, group: null, steps: []}`),
 		{Name: "timestamp", In: Map("when", Time("2002-08-15T01:02:03Z")), Out: Map("when", Time("2002-08-15T01:02:03Z"))},
